@@ -156,18 +156,22 @@ def coqchk(pid):
 
 
 def hygiene():
-    """No Admitted/admit/Axiom/... anywhere in the hand-written development (Gen/ and Cases/ are generated
-    tables/evaluations made of Definitions and Evals only)."""
-    rc, out = sh(r"grep -rnE '\b(Admitted|admit|Axiom|Parameter|Conjecture|Admit Obligations)\b|Unset Guard|bypass_check\(|type-in-type' "
-                 r"--include=*.v --exclude-dir=Gen --exclude-dir=Cases . || true", cwd=COQ)
+    """No Admitted/admit/Axiom/... in any file of the development, i.e. every .v listed in coq/_CoqProject
+    (Gen/ files are generated tables made of Definitions only and are skipped)."""
+    files = [l.strip() for l in open(os.path.join(COQ, "_CoqProject")) if l.strip().endswith(".v") and not l.startswith("Gen/")]
+    pat = re.compile(r"\b(Admitted|admit|Axiom|Parameter|Conjecture|Admit Obligations)\b|Unset Guard|bypass_check\(|type-in-type")
     lines = []
-    for l in out.strip().splitlines():
-        body = l.split(":", 2)[-1]
-        # ignore occurrences inside comments that merely talk about the rule
-        if re.search(r"\(\*.*\b(Admitted|admit|Axiom|Parameter|Conjecture)\b.*\*\)", body) and not re.match(r"\s*(Axiom|Parameter|Conjecture|Admitted)", body):
+    for f in files:
+        try:
+            src = open(os.path.join(COQ, f)).read()
+        except OSError:
+            lines.append(f + ": missing")
             continue
-        if l.strip():
-            lines.append(l)
+        # strip comments (non-nested approximation is enough: the keywords must not occur in code)
+        code = re.sub(r"\(\*.*?\*\)", "", src, flags=re.S)
+        for n, l in enumerate(code.splitlines(), 1):
+            if pat.search(l):
+                lines.append("%s:%d:%s" % (f, n, l.strip()[:80]))
     return lines
 
 
